@@ -154,11 +154,12 @@ def bring_up(onb: int, u0: int, u1: int, u2: int, s0: int, s1: int, s2: int, ret
     if gates and n_unlock != 1:
         ok = False
     if n_unlock == 1:
-        # ... and only after onboard check, mode, UI version, echo and retries were obtained (in that order)
+        # ... and only after onboard check, mode, UI version, echo and retries were obtained
         first = cmds.index(0x41) if n_pinbytes > 0 else cmds.index(unlock_cmd)
         echo_cmd = 0xA4 if platform == "sgx" else 0x02
         retries_cmd = 0xA2 if platform == "sgx" else 0x45
-        if cmds[:first] != [0x06, 0x43, 0x06, echo_cmd, retries_cmd]:
+        # (the statement fixes WHICH checks precede the PIN, not their order)
+        if sorted(cmds[:first]) != sorted([0x06, 0x43, 0x06, echo_cmd, retries_cmd]):
             ok = False
         if len(d.unlock_pins) != 1 or bytes(d.unlock_pins[0]) != pin.get_pin():
             ok = False
